@@ -45,6 +45,7 @@ def build(tier, work, builder):
     for name, rx in FUNCS:
         sl = X.function(src, name, rx)
         T.lower_literals(sl)
+        sl.sub("L2:constexpr->const", r"\bconstexpr\b", "const")
         sl.sub("L9:throw->ghost flag", r"throw XMLWriterError\(verif_lit\(\d+, \"[^\"]*\"\)\);", "VERIF_THROW_VOID;")
         sl.sub("glue:const char* from a temporary->handle", r"const char\* name = loc\.uid\.get_name\(\)\.c_str\(\);", "std::string verif_name_s = loc.uid.get_name(); const char* name = verif_name_s.c_str();")
         sl.sub("L15:auto->explicit", r"const auto id = concat\(", "const std::string id = concat(")
